@@ -259,6 +259,9 @@ def build_driver(family, timeout=900):
     if rc != 0:
         return None, 'extraction failed:\n' + out
     shutil.copy(zut, d)
+    if not os.path.exists(os.path.join(d, 'BinNums.ml')):
+        # this family does not use Z: give zutil.ml the (unused) number types it mentions
+        open(os.path.join(d, 'BinNums.ml'), 'w').write('type positive = Coq_xI of positive | Coq_xO of positive | Coq_xH\ntype coq_N = N0 | Npos of positive\ntype coq_Z = Z0 | Zpos of positive | Zneg of positive\n')
     shutil.copy(drv, os.path.join(d, 'drv.ml'))
     rc, order = sh('ocamlfind ocamldep -sort *.ml *.mli', cwd=d)
     files = [f for f in order.split() if f.endswith('.ml') or f.endswith('.mli')]
@@ -280,6 +283,7 @@ CONFIGS = {
     'bmi': ['-O2', '-DNDEBUG', '-mbmi2', '-fsanitize=address,undefined', '-fno-sanitize-recover=all'],
     'tsan': ['-O1', '-g', '-fsanitize=thread'],
     'syntax': ['-fsyntax-only'],
+    'plain': ['-O0'],
 }
 BASE_FLAGS = ['-std=c++20', '-ffp-contract=off', '-D' + GUARD, '-Wno-deprecated-declarations']
 
@@ -350,6 +354,7 @@ class Check:
         self.assumptions = []
         self.violations = []      # (key, what, replay dict, found_input: bool)
         self.known_hits = []
+        self.viol_keys = {}
         self.broken = []          # names of broken obligations / correspondences
         self.notes = []
         self.seen_cases = set()
@@ -386,6 +391,10 @@ class Check:
                 if k['key'] not in [h['key'] for h in self.known_hits]:
                     self.known_hits.append(k)
                 return
+        if key in self.viol_keys:
+            self.viol_keys[key] += 1
+            return
+        self.viol_keys[key] = 1
         self.violations.append((key, what, replay, found_input))
 
     # -- Coq -------------------------------------------------------------------
@@ -399,12 +408,15 @@ class Check:
             ok, log = coq_make([target], timeout=timeout)
         obs = obligations(vfile)
         cone = coq_cone(vfile)
-        built = {rel: vo_uptodate(rel) for rel in cone}
+        failed_targets = set(re.findall(r'\*\*\* \[[^\]]*?([A-Za-z0-9_/]+\.vo)\] Error', log))
+        built = {rel: (os.path.exists(os.path.join(COQ, rel[:-2] + '.vo')) and rel[:-2] + '.vo' not in failed_targets)
+                 for rel in cone}
         # a file counts as discharged only if it and everything it requires compiled
-        def good(rel, memo={}):
-            if rel in memo:
-                return memo[rel]
-            memo[rel] = built.get(rel, False) and all(good(r) for r in coq_cone(rel) if r != rel)
+        memo = {}
+
+        def good(rel):
+            if rel not in memo:
+                memo[rel] = built.get(rel, False) and all(built.get(r, False) for r in coq_cone(rel))
             return memo[rel]
         self.cov['obligations'] += len(obs)
         self.cov['discharged'] += sum(1 for (rel, _, _) in obs if good(rel))
@@ -445,7 +457,7 @@ class Check:
                                                  'broken': self.broken, 'seed': self.seed, 'tier': self.tier})
                 tail = '' if found else ' no-failing-input-found'
                 print(f'VIOLATION property={self.pid} replay={rp}{tail}', flush=True)
-                print(f'  {key}: {what}', flush=True)
+                print(f'  {key}: {what} (+{self.viol_keys[key] - 1} more with the same key)', flush=True)
         for k in self.known_hits:
             print(f"KNOWN-FINDING: property={self.pid} {k['what']}", flush=True)
         cov = dict(self.cov)
